@@ -314,9 +314,11 @@ impl Ctx<'_> {
             let pages: u64 = owned.iter().map(|(_, l)| l / 4096).sum();
             fnv(&mut self.res.digest_env, &pages.to_le_bytes());
             let want = self.model.live_installs() as u64;
-            if pages != want {
-                let key = if pages > want { "mapping-leaked" } else { "mapping-missing" };
-                self.viol("C12", key, format!("{pages} injector-owned trampoline page(s) mapped, {want} live installation(s)"));
+            // more mappings than live installations is a leak; fewer is not a violation (an
+            // installation need not own a mapping at all: a fake within rel32 reach of the entry can
+            // be reached without a trampoline) -- a mapping released too early shows as wrong behaviour
+            if pages > want {
+                self.viol("C12", "mapping-leaked", format!("{pages} injector-owned trampoline page(s) mapped, {want} live installation(s)"));
             }
         }
     }
@@ -533,7 +535,7 @@ pub fn run_cycles(w: &World, n: usize) -> (Vec<Violation>, u64) {
     fn tramp_pages() -> u64 {
         vkit::proc::maps()
             .iter()
-            .filter(|m| m.perms.starts_with("rwx") && m.path.is_empty())
+            .filter(|m| m.perms.as_bytes().get(2) == Some(&b'x') && m.path.is_empty())
             .map(|m| {
                 let (mut s, e) = (m.start, m.end);
                 let mut n = 0;
@@ -559,9 +561,9 @@ pub fn run_cycles(w: &World, n: usize) -> (Vec<Violation>, u64) {
                 steps += 1;
             }
             if c % 997 == 0 {
-                let pages = tramp_pages() - rwx_before;
-                if pages != lifetime.len() as u64 {
-                    viols.push(Violation { prop: "C12", key: "rwx-pages-during-lifetime".into(), step: c, what: format!("cycle {c}: {pages} rwx anonymous page(s) while {} installations are live", lifetime.len()) });
+                let pages = tramp_pages().saturating_sub(rwx_before);
+                if pages > lifetime.len() as u64 {
+                    viols.push(Violation { prop: "C12", key: "rwx-pages-during-lifetime".into(), step: c, what: format!("cycle {c}: {pages} executable anonymous page(s) beyond the baseline while {} installations are live", lifetime.len()) });
                 }
             }
             if c % 3 == 2 {
